@@ -64,6 +64,7 @@ func init() {
 			{ID: "C01-R36", Title: "every symbol has a slot of its own", Floor: 1, Run: everySymbolHasASlotOfItsOwn},
 			{ID: "C01-R37", Title: "derived operands are derived last (shared with C16-R32)", Floor: 1, Run: derivedOperandsAreDerivedLast},
 			{ID: "C01-R38", Title: "names are read from their storage (shared with C18-R25)", Floor: 3, Run: namesAreReadFromTheirStorage},
+			{ID: "C01-R39", Title: "the target of a compound assignment is read before the value is evaluated", Floor: 3, Run: theTargetOfACompoundAssignmentIsReadBeforeTheValueIsEvaluated},
 		},
 	})
 }
